@@ -4,6 +4,7 @@ import (
 	"fmt"
 	"os"
 	"path/filepath"
+	"strings"
 	"testing"
 )
 
@@ -75,6 +76,30 @@ func TestVerifWitness_C10_too_deep_on_directive(t *testing.T) {
 			fmt.Printf("WITNESS-FAILS depth limit 1, a includes b on line 2: error reported at line %d\n", e.Range.Start.Line)
 			return
 		}
+	}
+	fmt.Println("WITNESS-HOLDS")
+}
+
+// C11 / C19 include.(*Loader).SetLimits#ensures.new_limits_empty_cache: after the size limit is lowered by configuration a
+// file admitted under the old limit must not be served from the cache (a fresh loader with the new limits refuses it).
+func TestVerifWitness_C11_lowered_size_limit_applies_to_cached_files(t *testing.T) {
+	dir := t.TempDir()
+	big := "2024-01-01 x\n    assets:a  1 USD\n    assets:b\n" + strings.Repeat("; padding padding padding\n", 40)
+	os.WriteFile(filepath.Join(dir, "big.journal"), []byte(big), 0o644)
+	os.WriteFile(filepath.Join(dir, "main.journal"), []byte("include big.journal\n"), 0o644)
+	l := NewLoader()
+	r1, e1 := l.Load(filepath.Join(dir, "main.journal"))
+	if len(e1) != 0 || r1 == nil || len(r1.Files) != 1 {
+		fmt.Println("WITNESS-HOLDS (setup did not load)", e1)
+		return
+	}
+	limits := DefaultLimits()
+	limits.MaxFileSizeBytes = 100
+	l.SetLimits(limits)
+	r2, e2 := l.Load(filepath.Join(dir, "main.journal"))
+	if len(e2) == 0 && r2 != nil && len(r2.Files) == 1 {
+		fmt.Printf("WITNESS-FAILS big.journal (%d bytes) is still included without a diagnostic after the size limit was set to 100\n", len(big))
+		return
 	}
 	fmt.Println("WITNESS-HOLDS")
 }
